@@ -399,4 +399,254 @@ theorem hasPrev_eq (c : Cursor α) : hasPrev c = valid (prev c) := by
   | none => rfl
   | some p => simp only [hasPrev, prev]; cases findPrev p <;> rfl
 
+/-! ## order -/
+
+/-- a search tree: the in-order key list is strictly ascending -/
+def Ordered (cmp : α → α → Ordering) (t : Tree α) : Prop :=
+  t.toList.Pairwise (fun a b => cmp a b = .lt)
+
+theorem Ordered.node_iff {cmp : α → α → Ordering} {l r : Tree α} {x : α} :
+    Ordered cmp (.node l x r) ↔ Ordered cmp l ∧ Ordered cmp r ∧ (∀ y ∈ l.toList, cmp y x = .lt) ∧
+      (∀ y ∈ r.toList, cmp x y = .lt) ∧ (∀ a ∈ l.toList, ∀ b ∈ r.toList, cmp a b = .lt) := by
+  simp only [Ordered, Tree.toList, List.pairwise_append, List.pairwise_cons, List.mem_cons]
+  constructor
+  · rintro ⟨h1, ⟨h2, h3⟩, h4⟩
+    exact ⟨h1, h3, fun y hy => h4 y hy x (Or.inl rfl), h2, fun a ha b hb => h4 a ha b (Or.inr hb)⟩
+  · rintro ⟨h1, h2, h3, h4, h5⟩
+    refine ⟨h1, ⟨h4, h2⟩, ?_⟩
+    intro a ha b hb
+    rcases hb with rfl | hb
+    · exact h3 a ha
+    · exact h5 a ha b hb
+
+theorem Ordered.sub {cmp : α → α → Ordering} {t : Tree α} (h : Ordered cmp t) (ds : List Dir) :
+    Ordered cmp (sub t ds) := by
+  unfold Ordered at *
+  rw [toList_split t ds] at h
+  exact h.sublist (List.infix_append _ _ _).sublist
+
+theorem sub_toList_subset (t : Tree α) (ds : List Dir) {y : α} (hy : y ∈ (sub t ds).toList) : y ∈ t.toList := by
+  rw [toList_split t ds]; simp [hy]
+
+theorem pairwise_mem {R : α → α → Prop} {l : List α} (h : l.Pairwise R) {a b : α} (ha : a ∈ l) (hb : b ∈ l) :
+    a = b ∨ R a b ∨ R b a := by
+  induction l with
+  | nil => cases ha
+  | cons c l ih =>
+    rw [List.pairwise_cons] at h
+    rcases List.mem_cons.mp ha with rfl | ha' <;> rcases List.mem_cons.mp hb with rfl | hb'
+    · exact Or.inl rfl
+    · exact Or.inr (Or.inl (h.1 _ hb'))
+    · exact Or.inr (Or.inr (h.1 _ ha'))
+    · exact ih h.2 ha' hb'
+
+/-- a class of equivalent keys has at most one stored representative -/
+theorem Ordered.unique {cmp : α → α → Ordering} [Std.TransCmp cmp] {t : Tree α} (h : Ordered cmp t)
+    {k y1 y2 : α} (h1 : y1 ∈ t.toList) (h2 : y2 ∈ t.toList) (e1 : cmp k y1 = .eq) (e2 : cmp k y2 = .eq) :
+    y1 = y2 := by
+  rcases pairwise_mem h h1 h2 with rfl | hlt | hlt
+  · rfl
+  · have := Std.TransCmp.lt_of_eq_of_lt e1 hlt; rw [e2] at this; cases this
+  · have := Std.TransCmp.lt_of_eq_of_lt e2 hlt; rw [e1] at this; cases this
+
+/-! ## `Tree.Cursor(key)` -/
+
+section
+variable (cmp : α → α → Ordering)
+
+/-- the search stops on a node only when the comparison says equal -/
+theorem find_some (k : α) (t : Tree α) {a b : Tree α} {x : α}
+    (h : sub t (pathDirs cmp k t) = .node a x b) : cmp k x = .eq ∧ x ∈ t.toList := by
+  induction t with
+  | nil => simp [pathDirs] at h
+  | node l y r ihl ihr =>
+    simp only [pathDirs] at h
+    cases hc : cmp k y with
+    | lt => rw [hc] at h; have := ihl (by simpa [sub] using h); exact ⟨this.1, by simp [Tree.toList, this.2]⟩
+    | gt => rw [hc] at h; have := ihr (by simpa [sub] using h); exact ⟨this.1, by simp [Tree.toList, this.2]⟩
+    | eq =>
+      rw [hc] at h
+      simp at h
+      obtain ⟨_, rfl, _⟩ := h
+      exact ⟨hc, by simp [Tree.toList]⟩
+
+/-- the search leaves an ordered tree only when no stored key is equivalent -/
+theorem find_none [Std.TransCmp cmp] (k : α) (t : Tree α) (ho : Ordered cmp t)
+    (h : sub t (pathDirs cmp k t) = .nil) : ∀ y ∈ t.toList, cmp k y ≠ .eq := by
+  induction t with
+  | nil => intro y hy; cases hy
+  | node l x r ihl ihr =>
+    obtain ⟨hl, hr, hlx, hxr, _⟩ := Ordered.node_iff.mp ho
+    simp only [pathDirs] at h
+    intro y hy
+    simp only [Tree.toList, List.mem_append, List.mem_cons] at hy
+    cases hc : cmp k x with
+    | lt =>
+      rw [hc] at h
+      rcases hy with hy | rfl | hy
+      · exact ihl hl (by simpa [sub] using h) y hy
+      · rw [hc]; simp
+      · rw [Std.TransCmp.lt_trans hc (hxr y hy)]; simp
+    | gt =>
+      rw [hc] at h
+      rcases hy with hy | rfl | hy
+      · have h1 : cmp x k = .lt := Std.OrientedCmp.lt_of_gt hc
+        have h2 : cmp y k = .lt := Std.TransCmp.lt_trans (hlx y hy) h1
+        rw [Std.OrientedCmp.gt_of_lt h2]; simp
+      · rw [hc]; simp
+      · exact ihr hr (by simpa [sub] using h) y hy
+    | eq => rw [hc] at h; simp at h
+
+/-- **`Cursor(key)` is valid exactly for present keys** -/
+theorem ofKey_valid_iff [Std.TransCmp cmp] (root : Tree α) (ho : Ordered cmp root) (k : α) :
+    valid (ofKey cmp root k) = true ↔ ∃ y ∈ root.toList, cmp k y = .eq := by
+  cases hs : sub root (pathDirs cmp k root) with
+  | nil =>
+    have hn : ofKey cmp root k = none := by simp [ofKey, hs]
+    have := find_none cmp k root ho hs
+    rw [hn]
+    simp only [valid, Option.isSome_none, Bool.false_eq_true, false_iff]
+    rintro ⟨y, hy, he⟩; exact this y hy he
+  | node a x b =>
+    have ⟨he, hm⟩ := find_some cmp k root hs
+    have hx : cmp x k = .eq := Std.OrientedCmp.eq_symm he
+    have hn : ofKey cmp root k = some { root := root, dirs := pathDirs cmp k root } := by
+      simp [ofKey, hs, hx]
+    rw [hn]
+    simp only [valid, Option.isSome_some, true_iff]
+    exact ⟨x, hm, he⟩
+
+/-- **…and then reports the stored representative**, from a well-formed position in `root` -/
+theorem ofKey_some (root : Tree α) (k : α) {p : Pos α} (h : ofKey cmp root k = some p) :
+    p.root = root ∧ p.WF ∧ ∃ x, key? (some p) = some x ∧ cmp k x = .eq ∧ x ∈ root.toList := by
+  cases hs : sub root (pathDirs cmp k root) with
+  | nil => simp [ofKey, hs] at h
+  | node a x b =>
+    simp only [ofKey, hs] at h
+    split at h
+    · cases h
+    · cases h
+      have ⟨he, hm⟩ := find_some cmp k root hs
+      exact ⟨rfl, by show isNil (sub _ _) = false; rw [hs]; rfl, x, key?_some hs, he, hm⟩
+
+/-- `Root()` is valid iff the tree is non-empty, and is then the position with no context -/
+theorem ofRoot_spec (root : Tree α) :
+    (root = .nil ∧ ofRoot root = none) ∨
+    (∃ p, ofRoot root = some p ∧ p.root = root ∧ p.dirs = [] ∧ p.WF) := by
+  cases root with
+  | nil => exact Or.inl ⟨rfl, rfl⟩
+  | node l x r => exact Or.inr ⟨_, rfl, rfl, rfl, rfl⟩
+
+end
+
+/-! ## `Left`, `Right`, `Up`, `Min`, `Max`, `Inorder` -/
+
+theorem goLeft_spec (p : Pos α) (l r : Tree α) (x : α) (h : p.cur = .node l x r) :
+    (l = .nil ∧ goLeft (some p) = none) ∨
+    (∃ p', goLeft (some p) = some p' ∧ p'.WF ∧ p'.root = p.root ∧ p'.dirs = p.dirs ++ [.L] ∧ p'.cur = l) := by
+  have hs : sub p.root p.dirs = .node l x r := h
+  cases l with
+  | nil => left; simp [goLeft, h, left, isNil]
+  | node a y b =>
+    right
+    have hc : sub p.root (p.dirs ++ [.L]) = .node a y b := by rw [sub_append, hs]; simp [sub]
+    exact ⟨{ p with dirs := p.dirs ++ [.L] }, by simp [goLeft, h, left, isNil],
+      by show isNil (sub _ _) = false; rw [hc]; rfl, rfl, rfl, hc⟩
+
+theorem goRight_spec (p : Pos α) (l r : Tree α) (x : α) (h : p.cur = .node l x r) :
+    (r = .nil ∧ goRight (some p) = none) ∨
+    (∃ p', goRight (some p) = some p' ∧ p'.WF ∧ p'.root = p.root ∧ p'.dirs = p.dirs ++ [.R] ∧ p'.cur = r) := by
+  have hs : sub p.root p.dirs = .node l x r := h
+  cases r with
+  | nil => left; simp [goRight, h, right, isNil]
+  | node a y b =>
+    right
+    have hc : sub p.root (p.dirs ++ [.R]) = .node a y b := by rw [sub_append, hs]; simp [sub]
+    exact ⟨{ p with dirs := p.dirs ++ [.R] }, by simp [goRight, h, right, isNil],
+      by show isNil (sub _ _) = false; rw [hc]; rfl, rfl, rfl, hc⟩
+
+/-- everything at or below the left child is smaller, everything at or below the right child larger -/
+theorem below_left_lt {cmp : α → α → Ordering} (p : Pos α) (ho : Ordered cmp p.root) (l r : Tree α) (x : α)
+    (h : p.cur = .node l x r) (more : List Dir) :
+    ∀ y ∈ (sub p.root (p.dirs ++ .L :: more)).toList, cmp y x = .lt := by
+  have hs : sub p.root p.dirs = .node l x r := h
+  intro y hy
+  rw [sub_append, hs] at hy
+  have hy' : y ∈ l.toList := sub_toList_subset l more (by simpa [sub] using hy)
+  have := Ordered.node_iff.mp (hs ▸ ho.sub p.dirs)
+  exact this.2.2.1 y hy'
+
+theorem below_right_gt {cmp : α → α → Ordering} (p : Pos α) (ho : Ordered cmp p.root) (l r : Tree α) (x : α)
+    (h : p.cur = .node l x r) (more : List Dir) :
+    ∀ y ∈ (sub p.root (p.dirs ++ .R :: more)).toList, cmp x y = .lt := by
+  have hs : sub p.root p.dirs = .node l x r := h
+  intro y hy
+  rw [sub_append, hs] at hy
+  have hy' : y ∈ r.toList := sub_toList_subset r more (by simpa [sub] using hy)
+  have := Ordered.node_iff.mp (hs ▸ ho.sub p.dirs)
+  exact this.2.2.2.1 y hy'
+
+/-- `Up` drops the last step: invalid at the root, otherwise the parent (whose left or right child
+is the old current node) -/
+theorem up_spec (p : Pos α) (hw : p.WF) :
+    (p.dirs = [] ∧ up (some p) = none) ∨
+    (∃ p' d, up (some p) = some p' ∧ p'.WF ∧ p'.root = p.root ∧ p.dirs = p'.dirs ++ [d] ∧
+      (match d with | .L => left p'.cur | .R => right p'.cur) = p.cur) := by
+  rcases hd : p.dirs with _ | ⟨d0, ds0⟩
+  · left; simp [up, hd]
+  · right
+    have hne : p.dirs ≠ [] := by rw [hd]; simp
+    have hsplit : p.dirs = p.dirs.dropLast ++ [p.dirs.getLast hne] := (List.dropLast_concat_getLast hne).symm
+    refine ⟨{ p with dirs := p.dirs.dropLast }, p.dirs.getLast hne, ?_, ?_, rfl, ?_, ?_⟩
+    · simp [up, hd]
+    · show isNil (sub _ _) = false
+      have : isNil (sub p.root (p.dirs.dropLast ++ [p.dirs.getLast hne])) = false := by rw [← hsplit]; exact hw
+      exact sub_prefix_ne_nil this
+    · rw [← hd]; exact hsplit
+    · show _ = sub p.root p.dirs
+      conv => rhs; rw [hsplit, sub_append]
+      show _ = sub (sub p.root p.dirs.dropLast) [p.dirs.getLast hne]
+      cases hc : sub p.root p.dirs.dropLast with
+      | nil => cases p.dirs.getLast hne <;> simp [Pos.cur, hc, left, right]
+      | node a y b => cases p.dirs.getLast hne <;> simp [Pos.cur, hc, left, right, sub]
+
+theorem min_spec (p : Pos α) (l r : Tree α) (x : α) (h : p.cur = .node l x r) :
+    ∃ p' y r', min (some p) = some p' ∧ p'.WF ∧ p'.root = p.root ∧ p'.dirs = p.dirs ++ spineL p.cur ∧
+      p'.cur = .node .nil y r' ∧ p.cur.toList.head? = some y := by
+  have hs : sub p.root p.dirs = .node l x r := h
+  obtain ⟨y, r', h1, _, h3⟩ := spineL_spec l x r
+  have hc : sub p.root (p.dirs ++ spineL (.node l x r)) = .node .nil y r' := by rw [sub_append, hs, h1]
+  refine ⟨{ p with dirs := p.dirs ++ spineL p.cur }, y, r', rfl, ?_, rfl, rfl, ?_, ?_⟩
+  · show isNil (sub _ _) = false
+    rw [h, hc]; rfl
+  · show sub _ _ = _
+    rw [h, hc]
+  · rw [h, h3]; rfl
+
+theorem max_spec (p : Pos α) (l r : Tree α) (x : α) (h : p.cur = .node l x r) :
+    ∃ p' y l', max (some p) = some p' ∧ p'.WF ∧ p'.root = p.root ∧ p'.dirs = p.dirs ++ spineR p.cur ∧
+      p'.cur = .node l' y .nil ∧ p.cur.toList.getLast? = some y := by
+  have hs : sub p.root p.dirs = .node l x r := h
+  obtain ⟨y, l', h1, _, h3⟩ := spineR_spec l x r
+  have hc : sub p.root (p.dirs ++ spineR (.node l x r)) = .node l' y .nil := by rw [sub_append, hs, h1]
+  refine ⟨{ p with dirs := p.dirs ++ spineR p.cur }, y, l', rfl, ?_, rfl, rfl, ?_, ?_⟩
+  · show isNil (sub _ _) = false
+    rw [h, hc]; rfl
+  · show sub _ _ = _
+    rw [h, hc]
+  · rw [h, h3]; simp
+
+/-- the collecting consumer that never stops gathers the in-order list -/
+theorem inorderF_collect_none (t : Tree α) (acc : List α) :
+    MdsVerif.Model.Stree.inorderF (collect none) t acc = (t.toList.reverse ++ acc, true) := by
+  induction t generalizing acc with
+  | nil => simp [MdsVerif.Model.Stree.inorderF, Tree.toList]
+  | node l x r ihl ihr =>
+    simp only [MdsVerif.Model.Stree.inorderF, ihl, Bool.not_true, Bool.false_eq_true, ↓reduceIte, collect]
+    rw [ihr]; simp [Tree.toList]
+
+/-- **`Inorder` lists exactly the keys of the cursor's subtree, in order** -/
+theorem inorder_subtree (p : Pos α) : inorder (some p) none = p.cur.toList := by
+  simp [inorder, MdsVerif.Model.Cursor.inorderF, inorderF_collect_none]
+
 end MdsVerif.Proofs.Cursor
